@@ -195,9 +195,10 @@ static void op_destroy(int slot, const char *when)
     int d = M.desc[slot];
     vh_op("liberasurecode_instance_destroy"); vh_transitions(1);
     int rc = liberasurecode_instance_destroy(d);
-    if (rc != 0) { vh_violation("destroy-failed", "%s: destroy of live descriptor %d returned %d", when, d, rc); return; }
+    if (rc != 0) vh_violation("destroy-failed", "%s: destroy of live descriptor %d returned %d", when, d, rc);   /* the model drops it all the same: callers loop until the model is empty */
     memmove(&M.desc[slot], &M.desc[slot + 1], sizeof(int) * (size_t)(M.n - slot - 1)); memmove(&M.cfg[slot], &M.cfg[slot + 1], sizeof(int) * (size_t)(M.n - slot - 1));
     M.n--;
+    if (rc != 0) return;
     if (M.ndead < 64) M.dead[M.ndead++] = d;
     check_registry(when);
     use_dead(d, when);
